@@ -17,4 +17,8 @@ def run(ctx):
     # a number keeps its value only if it stays a token of its own: the blank in front of it follows cssparser's separator rule (C08.sep)
     obs += cp.separator_condition_rule(ctx, 'C10')
     obs += [o for o in cp.rules_rule(ctx, 'C10') if '/not-a-rule-list/' in o['key'] or '/lookup-key' in o['key'] or '/anchor' in o['key']]
+    # the options are read-only while a sheet is compiled (wave 9; shared by C08, C09, C10, C17)
+    obs += cp.options_untouched_rule(ctx, 'C10')
+    # units are compared as written: the tokens reach the conversion routine as cssparser produced them (shared with C08.step)
+    obs += [o for o in cp.step_rules(ctx, 'C10') if '/verbatim' in o['key'] or '/anchor' in o['key']]
     return obs
